@@ -233,6 +233,10 @@ func runBatchSequential(ctx context.Context, node Node, items []Result, results 
 		if ctx.Err() != nil {
 			results[i] = NewErrorResult(fmt.Errorf("context cancelled"))
 			if errorHandling == "stop" {
+				// Items that are never processed must not look like successes
+				for j := i + 1; j < len(results); j++ {
+					results[j] = NewErrorResult(fmt.Errorf("context cancelled"))
+				}
 				break
 			}
 			continue
@@ -242,6 +246,10 @@ func runBatchSequential(ctx context.Context, node Node, items []Result, results 
 		if err != nil {
 			results[i] = NewErrorResult(err)
 			if errorHandling == "stop" {
+				// Items that are never processed must not look like successes
+				for j := i + 1; j < len(results); j++ {
+					results[j] = NewErrorResult(fmt.Errorf("batch stopped due to error"))
+				}
 				break
 			}
 		} else {
